@@ -11,6 +11,9 @@ checks = {
  "C16": dict(
    text="All 2^32 words and all 2^32 byte quadruples are decided by the solver on the real BytesFromLowBits/I32FromBytes (bit loops executed with constant trip counts, diamonds merged to ite terms): no bound is left open, so within the trusted base this is a decision for every input, not a sample.",
    design="§5 C16", note=BASE_NOTE + "No assumption on inputs."),
+ "C11": dict(
+   text="risc.Parse is executed on strings whose bytes are SMT variables: totality for '<mnemonic> ' + every length 0..n of arbitrary ASCII bytes for all 45 mnemonics, mnemonic-free lines, load/store operand prefixes and two-line inputs (no panic; an error means no program; accepted text has as many instructions as instruction lines), the operand parsers alone, and 2-3 line programs whose indentation, mnemonic case, separators, comments, signs and decimal digits are symbolic, with decoded registers/immediates/label addresses probed through the instruction API. Positions of separators are enumerated by solver-decided forks, not sampled.",
+   design="§5 C11", note=BASE_NOTE + "Bytes < 0x80; engine models of strings.TrimSpace/Split/Index/IndexRune/ToLower and strconv.ParseInt(base 10) over byte sequences (trusted, DESIGN §2.4); bounded input lengths."),
  "C13": dict(
    text="Bounded-exhaustive operation histories from the empty cache (the executor forks on every operation choice; probe addresses and all data bytes are SMT variables) plus single/double operations from an ARBITRARY valid state, also at the 64B/1KB and 128B/4KB geometries the variants use, on the real comp.LRUCache and the generic cache.LRUCache; every returned byte/line/victim is compared by the solver with an MRU-first list kept by the harness.",
    design="§5 C13", note=BASE_NOTE + "Assumes callers never insert a line overlapping a resident one and Write stays inside one resident line; histories longer than k and unaligned bases are outside."),
